@@ -471,6 +471,9 @@ def dispatch(E, c, args):
     r = seqmodel.dispatch(E, c, tc, args)
     if r is not NotImplemented:
         return r
+    # ------------------------------------------------------------ byte sequences keep their identity under to_vec / clone / as_ref
+    if re.search(r"<impl \[u8\]>::to_vec$", c) or c.endswith("<[u8; 28] as AsRef<[u8]>>::as_ref") or re.search(r"<\[u8; \d+\] as AsRef<\[u8\]>>::as_ref$", c):
+        return VOpaque("bytes", [], E.as_u(args[0]))
     # ------------------------------------------------------------ mem
     if c.startswith("std::mem::replace") or c.startswith("core::mem::replace"):
         r = args[0]
